@@ -18,6 +18,8 @@ PLAIN = ["a", "b", "x", "y", "q", "ab", "ax", "1", "2", "10"]
 LITERAL = ["a", "b", "x", "y", "q", "ab", "ax", "1", "2", "10", "x\\,y", "a\\*", "a,b", "x,y", "a,x,q", "ab,ax", "b,,a", "1,2", "x\\,y,a", "a,a", "q,b,x", "a\\\\b", "a\\\\b,q", "x,a\\\\b"]
 # ... and clauses that force the iteration path
 WILD = ["*", "*", "a*", "*x", "?", "?b", "a?", "[ab]", "[a-c]*", "(a|b)", "(ab|x)", "~a", "~a*", "<1-2>", "<2->", "<-5>", "*,q", "a*,b", "[xy]", "~<2-3>", "?*"]
+# wildcard patterns over the parameter names !Self !G2N !N2G !SnKy !SnFl (PR_COMMAND_REMOVEPARAMETERS)
+RW_PATTERNS = ["*", "!S*", "!Sn*", "!*", "*2*", "!G2N,!N2G", "!Self", "!Sn??", "~!Self", "[!]S*", "!(G2N|Self)", "x*", "!SnKy", "!S?[el]*"]
 FILTERS = ["g2", "l5", "e3", "x", "g5", "l2", "g-1", "-"]
 HOSTS = ["h", "h", "h", "g"]
 WHATS = [1234, 1234, 1234, 1234, 0, 7, 558916399, 558916434, 558916414]   # BEGIN_PR_COMMANDS - 1, END_PR_COMMANDS + 1, PR_COMMAND_NOOP
@@ -80,7 +82,10 @@ def filters_for(rng, nkeys, prob=0.3):
 
 
 def relpath(rng, maxd=3):
-    return "/".join(rng.choice(NAMES if rng.random() < 0.15 else PLAIN) for _ in range(rng.choice([1, 1, 2, 2, 3][: maxd + 2])))
+    cl = [rng.choice(NAMES if rng.random() < 0.15 else PLAIN) for _ in range(rng.choice([1, 1, 2, 2, 3][: maxd + 2]))]
+    if F63_INPUTS and len(cl) == 3 and rng.random() < 0.06:
+        cl[1] = ""            # a node with an EMPTY name (SETDATA a//b creates one)
+    return "/".join(cl)
 
 
 def grouped_items(items):
@@ -157,8 +162,10 @@ class Gen:
             ks = keyset(rng, self.n, p_wild=self.p_wild) if rng.random() < 0.7 else []
             flags = "".join(c for c in "RGN" if rng.random() < (0.5 if c == "R" else 0.2))
             return ["sp:%d:%s:%s:%s" % (k, flags, "&".join(ks), filters_for(rng, len(ks), 0.25) if (ks or rng.random() < 0.1) else "")]
-        if r < 0.44:
+        if r < 0.42:
             return ["rp:%d:%s" % (k, "".join(c for c in "RGNKF" if rng.random() < 0.35) or "K")]
+        if r < 0.44:
+            return ["rw:%d:%s" % (k, rng.choice(RW_PATTERNS))]
         if r < 0.62:
             return [self.trav_cmd(k)]
         if r < 0.67:
@@ -217,9 +224,25 @@ DIRECTED = [
     "a:h;a:h;s:1:0:x,y=1&a*=2&a=3&ab=4;t:0:g:1:-1:x\\,y:;t:0:g:1:-1:a\\*:;t:0:g:1:-1:a*:;t:0:g:1:-1:x\\,y,a:;t:0:g:1:-1:x,y:;t:0:g:1:-1:a\\*,ab&x\\,y:",
     # F52: a list-of-unique-values clause whose item contains an escaped backslash must look up the name a\\b, not ab
     "a:h;a:h;s:1:0:a\\b=1&ab=3&c=2;t:0:g:1:-1:a\\\\b,c:;t:0:g:1:-1:a\\\\b:;t:0:g:1:-1:a\\\\b,c&*:;m:0:1234:a\\\\b,zz::-",
+    # wildcard REMOVEPARAMETERS
+    "a:h;a:h;a:h;s:1:0:b=1;sp:0:RGN:b:;m:0:1:::-;rw:0:!Sn*;m:0:2:::-;sp:0::b:g0;rw:0:!S*;m:0:3:::-;rw:0:*2*;m:0:4:::-;sp:0:RGN:b:;rw:0:~!Self;m:0:5:::-;rw:0:*;m:0:6:::-;rw:1:*;m:0:7:::-",
     # maximum results: abort of the traversal (-1)
     "a:h;a:h;a:h;s:1:0:a=1&b=2&a/x=3;s:2:0:a=4&b=5;t:0:g:1:0:*:;t:0:g:1:1:*:;t:0:g:1:2:*&*/*:;t:0:g:1:3:*&*/*:;t:0:g:1:9:*&*/*:;fn:0:1:/*/*/a;fn:1:2:*;fn:1:-1:a/*;fs:0:1:1:*;fs:0:1:2:*",
 ]
+
+
+# Inputs aimed at finding F63 (empty node names reached through list patterns with an empty item).  Reported to the
+# orchestrator with replay and patch; switched on here once the repair is in /repo (the model already follows either form
+# of the sources through the translator flag c_c05_uvempty_as_found).
+F63_INPUTS = False
+F63_DIRECTED = [
+    # F63: a node with an empty name and list patterns with an empty item (hash-lookup path vs iteration path)
+    "a:h;a:h;s:1:0:a//b=1&a/x/b=2;t:0:g:1:-1:a/x,,y/b:;t:0:g:1:-1:a/x,,y/b&*/*/*:;t:0:g:1:-1:a/,x/b:;t:0:g:1:-1:a/x,/b:;m:0:1234:a/y,,/b::-;t:1:s:1:-1:a/,:",
+]
+F63_LITERAL = ["x,,y", ",a", "a,", "q,,"]
+if F63_INPUTS:
+    DIRECTED += F63_DIRECTED
+    LITERAL += F63_LITERAL
 
 
 class CHECK(vlib.Check):
@@ -234,11 +257,12 @@ class CHECK(vlib.Check):
                 "depth), the comma-list key parsing of DoTraversalAux and RemoveEscapeChars in DoDirectChildLookup (Refl/ClauseKeys.v, over C15's "
                 "StringMatcher model; the MatchOps instance of the extracted model is the Coq definition Refl/PatInst.v pat_ops), PassMessageCallbackAux, FindSessionsCallback, FindNodesCallback, FindMatchingNodes, FindMatchingSessions, the default "
                 "branch of MessageReceivedFromGateway (forced PR_NAME_SESSION, keys/filters of the Message, default route, broadcast), the "
-                "routing fields of PR_COMMAND_SETPARAMETERS and RemoveParameter for literal names, UpdateDefaultMessageRoute; "
+                "routing fields of PR_COMMAND_SETPARAMETERS, PR_COMMAND_REMOVEPARAMETERS (literal names and wildcard patterns over the parameter names), "
+                "RemoveParameter, UpdateDefaultMessageRoute; "
                 "regex/PathMatcher.cpp PutPathsFromMessage (filter bleed-down), PutPathString, AdjustStringPrefix, MatchesPath; "
                 "DumbReflectSession::MessageReceivedFromGateway/MessageReceivedFromSession (routing flags), BroadcastToAllSessions; the tree-building "
-                "commands SETDATA / REMOVEDATA / attach / detach come from the C04 server model (Refl/Server.v).  Not modelled: wildcard "
-                "REMOVEPARAMETERS, QueryFilters that retarget the Message, KICK/GETDATATREES traversals, sockets and the event loop.")
+                "commands SETDATA / REMOVEDATA / attach / detach come from the C04 server model (Refl/Server.v).  Not modelled: "
+                "QueryFilters that retarget the Message, KICK/GETDATATREES traversals, sockets and the event loop.")
     premises = ["clause laws (ckeys_sound / ckeys_complete: a clause that reports lookup keys matches exactly those names): premises of the abstract "
                 "theorems; for the StringMatcher model of C15 + the repaired key parsing of DoTraversalAux they are PROVED (clause_laws_hold, from "
                 "C15's unique_sound / uvlist_sound laws; F8 patterns lie outside C15's Ere model), giving *_stringmatcher theorems without them",
@@ -250,7 +274,7 @@ class CHECK(vlib.Check):
                 "repairs assumed by the theorems: F12 (guard = exactly one pattern), F19 (one delivery per session per traversal), F20 (SETPARAMETERS "
                 "copies PR_NAME_KEYS/FILTERS into _parameters), F52 (comma-list lookup keys unescaped once); the translator's c_c05_*_as_found "
                 "flags must all be 0 and PassMessageCallbackAux must return NODE_DEPTH_SESSIONNAME (code_is_repaired)",
-                "pattern clauses without empty clauses; REMOVEPARAMETERS with literal names; QueryFilters that do not retarget the Message",
+                "pattern clauses without empty clauses (node names MAY be empty); QueryFilters that do not retarget the Message",
                 "memory safety and object lifetime of the C++ (observed by ASan/UBSan in the harness only)"]
     rule = ("multi-client histories from random.Random(seed) (streams: route = mixed commands; trav = traversal-heavy with pattern SETS of mixed "
             "depths sharing terminal clauses, literal / comma-list / wildcard clauses in every order; lit = the same with mostly literal clauses so "
